@@ -15,6 +15,13 @@ import time
 
 import z3
 
+def skey(sort):
+    """a printable unique key of a sort (array sorts all have the name 'Array')"""
+    import re
+
+    return re.sub(r"\W+", "_", str(sort)).strip("_")
+
+
 # ----------------------------------------------------------------------------
 # sorts
 # ----------------------------------------------------------------------------
@@ -193,7 +200,7 @@ class ListTheory:
 
 
 def list_theory(elem_sort, name=None) -> ListTheory:
-    key = elem_sort.name() if hasattr(elem_sort, "name") else str(elem_sort)
+    key = skey(elem_sort)
     if key not in ListTheory.cache:
         ListTheory.cache[key] = ListTheory(elem_sort, name or key)
     return ListTheory.cache[key]
@@ -238,7 +245,7 @@ _mem_cache: dict = {}
 
 
 def mem_theory(elem_sort):
-    key = elem_sort.name()
+    key = skey(elem_sort)
     if key in _mem_cache:
         return _mem_cache[key]
     LT = list_theory(elem_sort)
@@ -274,18 +281,82 @@ def mem_theory(elem_sort):
 
 mem_Int, memw_Int = mem_theory(Int)
 
+# finite sets: an enumeration (some duplicate-free order), cardinality, set of a list
+_enum_cache: dict = {}
+
+
+def _sname(sort):
+    return skey(sort)
+
+
+def enum_theory(elem_sort):
+    key = _sname(elem_sort)
+    if key in _enum_cache:
+        return _enum_cache[key]
+    S = z3.SetSort(elem_sort)
+    LT = list_theory(elem_sort, key)
+    enum = z3.Function(f"enum_{key}", S, LT.sort)
+    eidx = z3.Function(f"eidx_{key}", S, elem_sort, Int)
+    card = z3.Function(f"card_{key}", S, Int)
+    s_ = z3.Const(f"_en_s_{key}", S)
+    s2 = z3.Const(f"_en_s2_{key}", S)
+    x = z3.Const(f"_en_x_{key}", elem_sort)
+    k, k2 = z3.Ints(f"_en_k_{key} _en_k2_{key}")
+    TH.axiom([s_, k], LT.at(enum(s_), k), z3.Implies(z3.And(0 <= k, k < LT.len(enum(s_))), z3.IsMember(LT.at(enum(s_), k), s_)), f"enum.sound.{key}")
+    TH.axiom(
+        [s_, x],
+        [enum(s_), z3.IsMember(x, s_)],
+        z3.Implies(z3.IsMember(x, s_), z3.And(0 <= eidx(s_, x), eidx(s_, x) < LT.len(enum(s_)), LT.at(enum(s_), eidx(s_, x)) == x)),
+        f"enum.complete.{key}",
+    )
+    TH.axiom(
+        [s_, k, k2],
+        [LT.at(enum(s_), k), LT.at(enum(s_), k2)],
+        z3.Implies(z3.And(0 <= k, k < k2, k2 < LT.len(enum(s_))), LT.at(enum(s_), k) != LT.at(enum(s_), k2)),
+        f"enum.distinct.{key}",
+    )
+    TH.axiom([s_], enum(s_), LT.len(enum(s_)) == card(s_), f"card.def.{key}")
+    TH.axiom([s_], card(s_), z3.And(card(s_) >= 0, (card(s_) == 0) == (s_ == z3.EmptySet(elem_sort))), f"card.zero.{key}")
+    # a proper subset of a finite set is smaller (finiteness of the Python sets is assumed)
+    TH.axiom(
+        [s_, s2],
+        [card(s_), card(s2)],
+        z3.Implies(z3.And(z3.IsSubset(s_, s2), s_ != s2), card(s_) < card(s2)),
+        f"card.strict.{key}",
+    )
+    _enum_cache[key] = (enum, eidx, card)
+    return _enum_cache[key]
+
+
+_setof_cache: dict = {}
+
+
+def set_of_list(elem_sort):
+    key = _sname(elem_sort)
+    if key not in _setof_cache:
+        LT = list_theory(elem_sort, key)
+        mem, _w = mem_theory(elem_sort)
+        F = z3.Function(f"setof_{key}", LT.sort, z3.SetSort(elem_sort))
+        l = z3.Const(f"_so_l_{key}", LT.sort)
+        x = z3.Const(f"_so_x_{key}", elem_sort)
+        TH.axiom([l, x], z3.IsMember(x, F(l)), z3.IsMember(x, F(l)) == mem(l, x), f"setof.{key}")
+        TH.axiom([l, x], [F(l), mem(l, x)], z3.IsMember(x, F(l)) == mem(l, x), f"setof2.{key}")
+        _setof_cache[key] = F
+    return _setof_cache[key]
+
+
 # dict.values(): the list of values in key order
 _values_of: dict = {}
 
 
 def values_of(elem_sort, key_sort=None):
     key_sort = key_sort if key_sort is not None else Int
-    key = (elem_sort.name(), key_sort.name())
+    key = (skey(elem_sort), skey(key_sort))
     if key not in _values_of:
         LT = list_theory(elem_sort)
         KT = list_theory(key_sort)
         A = z3.ArraySort(key_sort, elem_sort)
-        tag = elem_sort.name() if key_sort == Int else f"{elem_sort.name()}_{key_sort.name()}"
+        tag = skey(elem_sort) if key_sort == Int else f"{skey(elem_sort)}_{skey(key_sort)}"
         F = z3.Function(f"values_{tag}", KT.sort, A, LT.sort)
         ks = z3.Const(f"_vo_k_{tag}", KT.sort)
         va = z3.Const(f"_vo_v_{tag}", A)
@@ -342,6 +413,28 @@ def _match(pat, term, vars_ids, subst):
     return subst
 
 
+def arith_normalize(t):
+    """normalise only the integer-sorted sub-terms (k+1-1 -> k) so that unfoldings meet;
+    a full z3.simplify would also rewrite x ∈ A∩B into x ∈ A ∧ x ∈ B and destroy the term
+    shapes the triggers are written for"""
+    pairs = []
+    seen = set()
+    stack = [t]
+    while stack:
+        u = stack.pop()
+        if u.get_id() in seen:
+            continue
+        seen.add(u.get_id())
+        if z3.is_int(u) and z3.is_app(u) and u.num_args() > 0 and u.decl().kind() in (z3.Z3_OP_ADD, z3.Z3_OP_SUB, z3.Z3_OP_MUL, z3.Z3_OP_UMINUS):
+            v = z3.simplify(u)
+            if not v.eq(u):
+                pairs.append((u, v))
+            continue
+        if z3.is_app(u):
+            stack.extend(u.children())
+    return z3.substitute(t, pairs) if pairs else t
+
+
 def instantiate(axioms, ground, fuel=3, max_instances=4000):
     """Ground-instantiate `axioms` against the ground terms of `ground` (list of z3
     Bool terms).  Returns the list of instances (quantifier-free)."""
@@ -378,7 +471,7 @@ def instantiate(axioms, ground, fuel=3, max_instances=4000):
                     continue
                 done.add(key)
                 inst = z3.substitute(ax.body, [(v, s[v.get_id()]) for v in ax.vars])
-                inst = z3.simplify(inst, arith_lhs=False, som=False)
+                inst = arith_normalize(inst)
                 new.append(inst)
                 if len(done) > max_instances:
                     raise RuntimeError("instantiation budget exceeded")
@@ -411,13 +504,29 @@ def _is_uconst(t):
     return z3.is_app(t) and t.num_args() == 0 and t.decl().kind() == z3.Z3_OP_UNINTERPRETED and "#" in t.decl().name()
 
 
+def _is_fapp_of_uconst(t):
+    """f(c) for an uninterpreted unary f and a program-generated constant c"""
+    return (
+        z3.is_app(t)
+        and t.num_args() == 1
+        and t.decl().kind() == z3.Z3_OP_UNINTERPRETED
+        and _is_uconst(t.arg(0))
+    )
+
+
+def _has_uconst(t):
+    acc = {}
+    _subterms(t, acc)
+    return any(_is_uconst(x) for x in acc.values())
+
+
 def _contains(t, c):
     acc = {}
     _subterms(t, acc)
     return c.get_id() in acc
 
 
-def solve_equalities(ground, foralls, goal_parts, rounds=6):
+def solve_equalities(ground, foralls, goal_parts, rounds=40):
     """orient hypotheses `c == t` (c an uninterpreted constant not occurring in t) as
     rewrite rules and apply them everywhere: a sound preprocessing (the equalities are
     hypotheses and are kept) that lets the syntactic matcher see through renamings such
@@ -436,6 +545,10 @@ def solve_equalities(ground, foralls, goal_parts, rounds=6):
                 elif _is_uconst(a) and _is_uconst(b) and not a.eq(b):
                     # orient by name so that the older constant (smaller suffix) survives
                     found = (a, b) if a.get_id() > b.get_id() else (b, a)
+                elif _is_fapp_of_uconst(a) and not _contains(b, a.arg(0)):
+                    found = (a, b)  # e.g. M(res#7) == ver(q): the callee's result is only known through M
+                elif _is_fapp_of_uconst(b) and not _contains(a, b.arg(0)):
+                    found = (b, a)
                 if found and any(found[0].eq(x) for x, _ in subst):
                     found = None
                 if found:
